@@ -265,8 +265,15 @@ def getters_case(res, drv, case):
     pbm.get_sampled_key = scripted
     try:
         pb = m.get_path_based(make_feasible=False)
+    except ValueError:
+        pb = None       # estimate_high_cost() raises on a graph without arcs / ports: a loud failure
     finally:
         pbm.get_sampled_key = restore
+    if pb is None or groups[3][0] == "none":
+        if (pb is None) != (groups[3][0] == "none"):
+            res.disagree("get_path_based raises", pb is None, groups[3][0])
+        res.features.append("path-getter:raises")
+        return
     tk = MU.Toks(groups[3])
     mpool = tk.lst(lambda: tk.lst(tk.nat))
     mcosts = [Fraction(t) for t in groups[4][1:]]
